@@ -8,4 +8,7 @@ PROPS = {
     "C03": dict(pkg="./props/c03", level="exploration",
                 quick=dict(shards=12, checks=9600, timeout=300),
                 thorough=dict(shards=16, checks=40000, timeout=1500)),
+    "C04": dict(pkg="./props/c04", level="fault_enumeration",
+                quick=dict(shards=16, checks=640, timeout=300),
+                thorough=dict(shards=16, checks=16000, timeout=1800)),
 }
